@@ -118,11 +118,11 @@ def jobs(tier):
     if tier == "quick":
         plan = [([2], 3), ([3], 4), ([2, 2], 4), ([3, 2], 4), ([3, 3], 4), ([4], 4), ([2], 5), ([3], 5)]
     else:
-        plan = [([2], 6), ([3], 6), ([4], 6), ([2, 2], 6), ([3, 2], 6), ([3, 3], 5), ([4, 3], 5), ([2, 2, 2], 5),
-                ([3, 2, 2], 5), ([4, 4], 5), ([5], 6), ([7], 5)]
+        plan = [([2], 6), ([3], 6), ([4], 6), ([2, 2], 6), ([3, 2], 5), ([3, 3], 5), ([4, 3], 5), ([2, 2, 2], 5),
+                ([3, 2, 2], 4), ([4, 4], 5), ([5], 6), ([7], 5)]
     for frags, events in plan:
         out.append(Job("symbolic-delivery-schedule", h_schedule, dict(frags=frags, events=events, body=2),
-                       cost=len(frags) * events ** 2))
+                       cost=len(frags) * events ** 2, shards=(1 if tier == "quick" or events < 5 else 8)))
     for n in ((25, 48, 49, 96, 121, 137, 144) if tier == "quick" else range(25, 145)):
         out.append(Job("in-order-stream-is-delivered", h_inorder, dict(n=n)))
     return out
@@ -132,7 +132,7 @@ META = {
     "bounds": {"quick": "1-2 senders x 2-4 fragments, 3-5 delivery events, every event a symbolic pick from the fragment pool, "
                         "symbolic dequeue points, symbolic origins/ids (may coincide)/types 0..127/contents, 2-byte fragment "
                         "bodies; plus real-size in-order streams for messages of 25..144 bytes",
-               "thorough": "up to 3 senders, up to 7 fragments, up to 6 events"},
+               "thorough": "up to 3 senders (4 events), up to 7 fragments, up to 6 events for one sender / two 2-fragment senders, 5 otherwise"},
     "outside": ["more than 3 senders / 7 fragments / 6 events", "more than one message per (origin, frame id); two messages of one origin carry different frame ids (each header gets a fresh id)",
                 "original message types above 127 (NETWORK_EXT_DATA 131 is propagated by reference, see structs.py)",
                 "24-byte fragment bodies in the schedule obligation (the queue never looks at the body length; bodies are 2 bytes "
